@@ -219,7 +219,9 @@ def handle : Handler := fun op inp impl =>
     let serverOK := beh == "ok" || beh == "" || beh == "eof"
     -- the client under test broke down mid-run (its own log says so): what it was handed before is
     -- judged, and what the runner does about its servers
-    let broke := bool (field impl "breakdown")
+    -- (a client of the kinds read* answers nothing at all, also before it dies — or when it never
+    -- gets to read the request it was to die on: it is a client that broke down from the start)
+    let broke := bool (field impl "breakdown") || (str (field inp "clientStopHow")).startsWith "read"
     -- (1) each selected permutation handed to the client exactly once (when servers start properly
     -- and the client lives; otherwise at most once, and nothing that was not selected)
     let once := if serverOK && !broke then sentNames == wantNames else sentNames.all (wantNames.contains ·) && (dedupSorted sentNames == sentNames)
